@@ -449,6 +449,25 @@ func genStoredShapes(r *rand.Rand, i int) Scenario {
 			sc.Ops = append(sc.Ops, Op{Op: "stored", Seg: 5, N: n}) // the twin right after: same extent, other bytes
 		}
 	}
+	{
+		// differing field lists: stored values are re-grouped under the merged field numbers
+		c2 := cfg
+		c2.Fields = []string{"zz", "aa0"}
+		c2.MinDocs, c2.MaxDocs = 1, 4
+		other := genBatch(r, &c2, &seq)
+		sc.Batches = append(sc.Batches, other)
+		sc.Universe = append(sc.Universe, "zz", "aa0")
+		order := [][]int{{1, 8}, {8, 1}, {8, 1, 5}}[r.Intn(3)]
+		dr := make([]DropSpec, len(order))
+		for k := range dr {
+			dr[k] = DropSpec{Kind: "nil"}
+		}
+		sc.Ops = append(sc.Ops, Op{Op: "build", Seg: 8, Batch: 2, Mode: 0},
+			Op{Op: "merge", File: 6, In: order, Drops: dr, Mode: 0, Buf: 256}, Op{Op: "load", File: 6, Seg: 6, Backing: "mem"})
+		for n := 0; n < len(b)*2+len(other) && n < 300; n++ {
+			sc.Ops = append(sc.Ops, Op{Op: "stored", Seg: 6, N: n})
+		}
+	}
 	if len(b) > 1 {
 		// the merger walks both twins with one visit context (re-encode path: a document dropped in each)
 		sc.Ops = append(sc.Ops, Op{Op: "merge", File: 7, In: []int{1, 5}, Drops: []DropSpec{{Kind: "set", Docs: []int{0}}, {Kind: "set", Docs: []int{len(b) - 1}}}, Mode: 0, Buf: 256},
